@@ -367,9 +367,15 @@ impl Family for C07Family {
                         [] => !single || o.before == o.after,
                         [(_, false, cred, Some(prev))] => {
                             stats.probe(if cancelled { "cancel_after_counter_update" } else { "auth_err_after_counter_update" });
-                            let plus_one = prev.counter.is_some()
-                                && cred.counter == prev.counter.map(|c| c.wrapping_add(1))
-                                && prev.counter != Some(u32::MAX)
+                            // "advanced by one" relative to what this ceremony looked up (under
+                            // concurrency another ceremony may have moved the stored value since:
+                            // that race is C19's clause, not this one's)
+                            let seen = found.iter().find(|f| f.id == cred.id).and_then(|f| f.counter);
+                            let plus_one = seen.is_some()
+                                && seen != Some(u32::MAX)
+                                && cred.counter == seen.map(|c| c.wrapping_add(1))
+                                && (single || prev.counter.is_some())
+                                && (!single || prev.counter == seen)
                                 && **cred == prev.with_counter(cred.counter);
                             let selected = found.iter().any(|f| f.id == cred.id);
                             let untouched = !single
